@@ -219,14 +219,14 @@ CLAIMS["C15"] = dict(
     category="other",
     text="Mixed. Proved: _alpha_tr returns a non-negative step length reaching the trust-region boundary (NRA); cauchy_geometry returns one "
          "of its two candidates computed on the clamped bounds; _cauchy_geom's step is a clip result inside the clamped bounds; the call "
-         "sites in the framework meet the subsolvers' preconditions; for constrained_tangential_byrd_omojokun the bound clause is a loop "
-         "invariant of both real loops (every n, every number of linear constraints, every iteration; frame computed from the loop body, "
+         "sites in the framework meet the subsolvers' preconditions; for constrained_tangential_byrd_omojokun and tangential_byrd_omojokun the "
+         "bound clause is a loop invariant of both real loops (every n, every number of linear constraints, every iteration; frame computed from the loop body, "
          "matrices opaque): the returned step is NaN or inside [min(xl,0), max(xu,0)]. Bounded: the five subsolvers are run on 3000 (30000 thorough) seeded "
          "cases (floats over 12 decades and small-integer instances, all listed degeneracies) against bounds/radius/linear-inequality/"
          "null-space clauses as run-time contracts.",
     design_ref="5 C15",
     note="Radius, linear-inequality and null-space clauses of the truncated-CG loops, NaN-freeness of the steps, and the bound clause of "
-         "tangential_byrd_omojokun (rotation without clip) and normal_byrd_omojokun are not proved: bounded only, detection is probabilistic.",
+         "normal_byrd_omojokun are not proved: bounded only, detection is probabilistic.",
     technique="deductive units for the small pieces + bounded run-time contracts for the numerical loops",
 )
 CLAIMS["C16"] = dict(
